@@ -152,6 +152,8 @@ fn main() {
         "2" => run::<2>(t),
         "3" => run::<3>(t),
         "10" => run::<10>(t),
+        "17" => run::<17>(t),
+        "20" => run::<20>(t),
         other => {
             eprintln!("harness: unsupported N {}", other);
             std::process::exit(3)
